@@ -26,7 +26,7 @@ func init() {
 	sf := func(name string, t reflect.Type) reflect.StructField { return reflect.StructField{Name: name, Type: t} }
 	str, num, boolT := reflect.TypeOf(""), reflect.TypeOf(float64(0)), reflect.TypeOf(true)
 	tLeaf = reflect.StructOf([]reflect.StructField{sf("Name", str), sf("Val", num), sf("Ok", boolT)})
-	tMid = reflect.StructOf([]reflect.StructField{sf("Id", num), sf("Label", str), sf("Leaf", reflect.PtrTo(tLeaf)), sf("Tags", reflect.SliceOf(str)), sf("Inner", tLeaf)})
+	tMid = reflect.StructOf([]reflect.StructField{sf("Id", num), sf("Label", str), sf("Leaf", reflect.PtrTo(tLeaf)), sf("Tags", reflect.SliceOf(str)), sf("Inner", tLeaf), sf("Leafs", reflect.SliceOf(tLeaf))})
 	tRoot = reflect.StructOf([]reflect.StructField{
 		sf("Title", str), sf("Count", num), sf("Kids", reflect.SliceOf(tMid)), sf("PKids", reflect.SliceOf(reflect.PtrTo(tMid))),
 		sf("Leaf", reflect.PtrTo(tLeaf)), sf("NilLeaf", reflect.PtrTo(tLeaf)), sf("Nums", reflect.SliceOf(num)),
@@ -85,6 +85,12 @@ func fillMid(g *gen) reflect.Value {
 	}
 	v.Field(3).Set(tags)
 	v.Field(4).Set(fillLeaf(g))
+	n = g.r.intn(4)
+	leafs := reflect.MakeSlice(reflect.SliceOf(tLeaf), n, n)
+	for i := 0; i < n; i++ {
+		leafs.Index(i).Set(fillLeaf(g))
+	}
+	v.Field(5).Set(leafs)
 	return v
 }
 
@@ -183,6 +189,15 @@ func typedCase(seed uint64, idx int) (g *gen, doc interface{}, generic interface
 		for _, e := range []string{"[reverse(Lists[0]), reverse(Nums)]", "[sum(Nums), sum(Lists[0])]"} {
 			exprs = append(exprs, typedExpr{typed: e, generic: e})
 		}
+	}
+	// two fixed navigations per case: a typed slice walked INSIDE the walk of another typed slice (projection in
+	// the right-hand side or condition of a projection), and the empty / odd field names
+	for i := 0; i < 2; i++ {
+		e := g.r.pick([]string{"Kids[*].Leafs[*].Name", "Kids[*].Tags[*]", "PKids[*].Leafs[*].Val", "Kids[?Leafs[?Ok]].Label", "Kids[?Tags[?@ == 't']].Id", "Kids[*].Leafs[?Ok].Name",
+			"Kids[:3].Leafs[::-1].Name", "Kids[::-1].Tags[:2]", "Lists[*][*]", "Lists[*][::-1]", "Kids[].Leafs[].Name", "Kids[*].Leafs[*].[Name, Val]", "PKids[*].Tags[*] | [0]",
+			"Kids[*].[Leafs[*].Name, Tags[*]]", "Kids[?Leafs[0].Ok].Leafs[*].Name", "[Kids[*].Tags[*], Kids[*].Leafs[*].Ok]", "Kids[*].Leafs[*].Name | [1]",
+			"\"\"", "Inner.\"\"", "Kids[*].\"\"", "Leaf.\"\"", "\"\" || Title", "{a: \"\", b: Title}", "\" \"", "Inner.\"\\u0000\"", "\"title \"", "Kids[0].\"\".Name"})
+		exprs = append(exprs, typedExpr{typed: e, generic: e, nav: true})
 	}
 	ne := 3 + g.r.intn(4)
 	for i := 0; i < ne; i++ {
